@@ -1,4 +1,4 @@
-(* C08 driver: scenario = list of mock operations; see checks/C08.py for the token grammar *)
+(* C08 driver: scenario = list of mock operations, each on mock() or on a named scope; see checks/C08.py for the token grammar *)
 let ity_of = function 0 -> TInt | 1 -> TUInt | 2 -> TLong | 3 -> TULong | 4 -> TLLong | 5 -> TULLong | _ -> raise (Bad "ity")
 let int_of_ity = function TInt -> 0 | TUInt -> 1 | TLong -> 2 | TULong -> 3 | TLLong -> 4 | TULLong -> 5
 let value c =
@@ -14,20 +14,32 @@ let pvalue = function
   | PStr s -> ":s " ^ pbytes s
   | PPtr a -> ":p " ^ pz a
 let params c = counted c (fun c -> let n = n_tok (next c) in let v = value c in (n, v))
+let outs c = counted c (fun c -> let n = n_tok (next c) in let b = bytes_tok (next c) in (n, b))
+let item c =
+  match next c with
+  | ":in" -> let n = n_tok (next c) in let v = value c in IIn (n, v)
+  | ":out" -> let n = n_tok (next c) in let b = bytes_tok (next c) in IOut (n, b)
+  | ":obj" -> IObj (z_tok (next c))
+  | t -> raise (Bad ("item tag " ^ t))
+let optret c = if peek c = Some "~" then (ignore (next c); None) else Some (value c)
 let op c =
   match next c with
   | ":e" -> let n = n_tok (next c) in let f = n_tok (next c) in let ps = params c in
-            let ret = (if peek c = Some "~" then (ignore (next c); None) else Some (value c)) in
-            let ign = bool_tok (next c) in OExpect (n, f, ps, ret, ign)
-  | ":c" -> let f = n_tok (next c) in let ps = params c in let want = bool_tok (next c) in OCall (f, ps, want)
+            let ret = optret c in
+            let ign = bool_tok (next c) in OExpect (n, f, ps, [], None, ret, ign)
+  | ":E" -> let n = n_tok (next c) in let f = n_tok (next c) in let ps = params c in let os = outs c in
+            let obj = (if peek c = Some "~" then (ignore (next c); None) else Some (z_tok (next c))) in
+            let ret = optret c in
+            let ign = bool_tok (next c) in OExpect (n, f, ps, os, obj, ret, ign)
+  | ":c" -> let f = n_tok (next c) in let ps = params c in let want = bool_tok (next c) in
+            OCall (f, List.map (fun (n, v) -> IIn (n, v)) ps, want)
+  | ":C" -> let f = n_tok (next c) in let its = counted c item in let want = bool_tok (next c) in OCall (f, its, want)
   | ":chk" -> OCheck | ":clr" -> OClear | ":strict" -> OStrict | ":ign" -> OIgnoreOtherCalls
+  | ":en" -> OEnable | ":dis" -> ODisable | ":left" -> OLeft
   | t -> raise (Bad ("op " ^ t))
-let rec ops c = if at_end c then [] else let o = op c in o :: ops c
-let rec valid_ops = function
-  | [] -> true
-  | OExpect (_, _, ps, ret, _) :: r -> List.for_all (fun (_, v) -> pv_valid v) ps && (match ret with Some v -> pv_valid v | None -> true) && valid_ops r
-  | OCall (_, ps, _) :: r -> List.for_all (fun (_, v) -> pv_valid v) ps && valid_ops r
-  | _ :: r -> valid_ops r
+(* ":s <scope>" before an operation: the operation is made on mock("s<scope>") instead of mock() *)
+let sop c = if peek c = Some ":s" then (ignore (next c); let s = n_tok (next c) in let o = op c in (s, o)) else (N0, op c)
+let rec ops c = if at_end c then [] else let o = sop c in o :: ops c
 let pkind = function
   | FUnexpectedCall f -> Printf.sprintf ":unexpected %s 0" (pn f)
   | FAdditionalCall (f, n) -> Printf.sprintf ":additional %s %s" (pn f) (pn n)
@@ -38,12 +50,17 @@ let pkind = function
   | FNotFulfilled -> ":unfulfilled 0 0"
   | FOutOfOrder -> ":order 0 0"
   | FCannotHappen -> ":cannot 0 0"
+  | FOutName (f, p) -> Printf.sprintf ":oname %s %s" (pn f) (pn p)
+  | FOutType (f, p) -> Printf.sprintf ":otype %s %s" (pn f) (pn p)
+  | FObjectUnexpected f -> Printf.sprintf ":ounexpected %s 0" (pn f)
 let ppairs l = String.concat " " (Printf.sprintf "%x" (List.length l) :: List.map (fun (a, b) -> pn a ^ " " ^ pn b) l)
 let pobs o =
   let f = match o.o_fail with
     | None -> "~"
     | Some (i, fl) -> String.concat " " [pn i; pkind fl.f_kind; ppairs fl.f_unf; ppairs fl.f_ful] in
-  String.concat " " (f :: Printf.sprintf "%x" (List.length o.o_rets) :: List.map (function None -> ":n" | Some v -> pvalue v) o.o_rets)
+  String.concat " " (f :: Printf.sprintf "%x" (List.length o.o_rets) :: List.map (function None -> ":n" | Some v -> pvalue v) o.o_rets
+                     @ Printf.sprintf "%x" (List.length o.o_outs) :: List.map pbytes o.o_outs
+                     @ Printf.sprintf "%x" (List.length o.o_left) :: List.map pbool o.o_left)
 (* parse an observation back (for the oracle) *)
 let kind_of c =
   let k = next c in let a = next c in let b = next c in
@@ -57,6 +74,9 @@ let kind_of c =
   | ":unfulfilled" -> FNotFulfilled
   | ":order" -> FOutOfOrder
   | ":cannot" -> FCannotHappen
+  | ":oname" -> FOutName (n_tok a, n_tok b)
+  | ":otype" -> FOutType (n_tok a, n_tok b)
+  | ":ounexpected" -> FObjectUnexpected (n_tok a)
   | t -> raise (Bad ("kind " ^ t))
 let pairs c = counted c (fun c -> let a = n_tok (next c) in let b = n_tok (next c) in (a, b))
 let obs_of os =
@@ -65,9 +85,14 @@ let obs_of os =
     let i = n_tok (next c) in let k = kind_of c in let u = pairs c in let f = pairs c in
     Some (i, { f_kind = k; f_unf = u; f_ful = f })) in
   let rets = counted c (fun c -> if peek c = Some ":n" then (ignore (next c); None) else Some (value c)) in
-  if not (at_end c) then raise (Bad "trailing tokens") else { o_fail = fail; o_rets = rets }
+  let outs = counted c (fun c -> bytes_tok (next c)) in
+  let left = counted c (fun c -> bool_tok (next c)) in
+  if not (at_end c) then raise (Bad "trailing tokens") else { o_fail = fail; o_rets = rets; o_outs = outs; o_left = left }
 let scenario ts =
   let o = ops { rest = ts } in
-  if not (valid_ops o) then raise (Bad "value out of range of its type") else o
-let run_line ts = pobs ((if Sys.getenv_opt "C08_OLD" <> None then run_old else run) (scenario ts))
-let spec_line ts os = spec (scenario ts) (obs_of os)
+  if not (valid o) then raise (Bad "value out of range of its type / output buffer size") else o
+let run_line ts = pobs ((if Sys.getenv_opt "C08_OLD" <> None then runw_old else runw) (scenario ts))
+(* C08_JUDGED=1: answer "is the scenario judged by the spec" instead (coverage statistics of checks/C08.py) *)
+let spec_line ts os =
+  if Sys.getenv_opt "C08_JUDGED" <> None then (match parsew (scenario ts) with Some k -> judgedw k | None -> false)
+  else specw (scenario ts) (obs_of os)
